@@ -387,7 +387,11 @@ func (lip6) Run(c Case) Result {
 			if scls == "panic" {
 				res.Oracle = append(res.Oracle, n6oracle("C07:panic", "%s SerializeTo panics: %s", k, op[:min(len(op), 300)]))
 			}
-			// oracle C06: decoded without error (rt) or built in range (nrt), serialization succeeded
+			// oracle C06: decoded without error (rt) or built in range (nrt): serialization must succeed ...
+			if first == "ok" && scls == "err" {
+				res.Oracle = append(res.Oracle, n6oracle("C06:serialize-error", "%s SerializeTo with FixLengths fails on a decoded / in-range value (payload %d octets)", k, len(payload)))
+			}
+			// ... and the decoder must give the value back
 			if first == "ok" && scls == "ok" {
 				jumbo := k == "ip6" && len(payload) > 65535
 				if k == "ip6" && len(payload) == 0 && o.ip.HopByHop == nil && cls2 == "err" {
